@@ -1,5 +1,6 @@
 #!/usr/bin/env python3
-"""Creates mutants/<name>.diff from (file, old, new) triples (first occurrence replaced)."""
+"""Creates mutants/<name>.diff from (file, old, new) triples (first occurrence replaced).
+tools/mkmutants.py [name-prefix ...]: only the mutants whose name starts with one of the prefixes (default: all)."""
 import difflib, os, sys
 REPO = "/repo"
 M = [
@@ -35,17 +36,37 @@ M = [
  ("c08_values_first_handler", "src/library/prog_args/groups.cpp", "            if ((last_arg != nullptr) && last_arg->takesMultiValue())",
   "            if ((last_arg != nullptr) && last_arg->takesMultiValue() && (&stored_group == &mArgGroups.front()))"),
  ("c09_static_separator_buffer", "src/celma/common/tokenizer.hpp", "   return std::string( 1, c);", "   static std::string  s;\n   s.assign( 1, c);\n   return s;"),
+ # destination kinds vector<bool>, DynamicBitset, std::map, value and pair arguments (docs/notes_prog_args_kinds.md)
+ ("c06_vecbool_growth_orig", "src/celma/prog_args/detail/typed_arg.hpp",
+  "            auto const  pos = boost::lexical_cast< size_t>( listVal);\n            if (pos >= mDestVar.size())\n               mDestVar.resize( pos + pos / 2 + 1);",
+  "            auto const  pos = boost::lexical_cast< size_t>( listVal);\n            if (pos >= mDestVar.size())\n               mDestVar.resize( pos * 1.5);"),
+ ("c06_vecbool_unset_sets", "src/celma/prog_args/detail/typed_arg.hpp",
+  "               mDestVar.resize( pos + pos / 2 + 1);\n            mDestVar[ pos] = !mResetFlags;\n         } // end if",
+  "               mDestVar.resize( pos + pos / 2 + 1);\n            mDestVar[ pos] = true;\n         } // end if"),
+ ("c06_dynbits_clear_every_use", "src/celma/prog_args/detail/typed_arg.hpp",
+  "         mDestVar.reset();\n         // clear only once\n         mClearB4Assign = false;", "         mDestVar.reset();"),
+ ("c06_map_duplicate_key_overwrites", "src/celma/prog_args/detail/key_value_container_adapter.hpp",
+  "      mDestCont.insert( { key, value});", "      mDestCont[ key] = value;"),
+ ("c01_pair_second_not_set", "src/celma/prog_args/detail/typed_arg_pair.hpp",
+  "   TypedArg< T1>::assign( value, inverted);\n   mDestVar2 = mValue2;", "   TypedArg< T1>::assign( value, inverted);"),
+ ("c02_value_orig_check_off", "src/celma/prog_args/detail/typed_arg_value.hpp",
+  "   if (mCheckOrigValue && (mDestVar != mOrigValue))", "   if (false && mCheckOrigValue && (mDestVar != mOrigValue))"),
  ("c18_hidden_shown_in_optional", "src/library/prog_args/detail/argument_desc.cpp", "          && (printHidden || !mpArgObj->isHidden())",
   "          && (printHidden || !mpArgObj->isHidden() || !printIsMandatory)"),
  ("c18_long_only_uses_short_test", "src/library/prog_args/detail/argument_desc.cpp", "                  && mpArgObj->key().hasStringArg()));",
   "                  && mpArgObj->key().hasCharArg()));"),
 ]
 root = os.path.dirname(os.path.dirname(os.path.abspath(__file__)))
+sel = sys.argv[1:]
+n = 0
 for name, f, old, new in M:
+    if sel and not any(name.startswith(p) for p in sel):
+        continue
+    n += 1
     src = open(os.path.join(REPO, f)).read()
     if src.count(old) < 1:
         print("PATTERN NOT FOUND", name); continue
     dst = src.replace(old, new, 1)
     d = difflib.unified_diff(src.splitlines(True), dst.splitlines(True), "a/" + f, "b/" + f)
     open(os.path.join(root, "mutants", name + ".diff"), "w").write("".join(d))
-print("written", len(M))
+print("written", n)
